@@ -454,6 +454,21 @@ def outline_cases(ctx, n):
 UNITS = [0x0041, 0x00e9, 0x0000, 0x2022, 0xd800, 0xdbff, 0xdc00, 0xdfff, 0xfeff, 0xffff, 0xd83d, 0xde00]
 
 
+def annex_d_table():
+    """byte -> character from the reference snapshot of Annex D (glyph names through the Adobe glyph list)"""
+    spec = os.path.join(common.VERIF, "spec")
+    agl = {}
+    for line in open(os.path.join(spec, "agl.txt")):
+        k, v = line.rstrip("\n").split(";")
+        agl[k] = "".join(chr(int(x, 16)) for x in v.split())
+    t = {}
+    for line in open(os.path.join(spec, "latin.txt")):
+        tab, c, nm = line.split()
+        if tab == "pdf" and nm in agl and len(agl[nm]) == 1:
+            t[int(c)] = agl[nm]
+    return t
+
+
 def decode_cases(ctx, n):
     from pdfminer.utils import decode_text
     cases = []
@@ -474,8 +489,22 @@ def decode_cases(ctx, n):
                            + (b"\x00" if r.random() < 0.2 else b""))
         else:
             strings.append(b"\xfe\xff" + bytes(r.randrange(256) for _ in range(r.randint(0, 12))))
+    # every single byte, alone and inside an ASCII context: PDFDocEncoding is no superset of ASCII (0x18-0x1F are
+    # the spacing accents), so an all-ASCII string must still go through the table
+    for b in range(256):
+        strings.append(bytes([b]))
+        strings.append(b"A" + bytes([b]) + b"z")
+    for i in range(n // 3):
+        r = ctx.sub("decode-ascii", i)
+        strings.append(bytes(r.choice([r.randrange(0x18, 0x20), r.randrange(0x20, 0x7f), r.randrange(0, 0x80)]) for _ in range(r.randint(1, 12))))
+    annex_d = annex_d_table()
     for s in strings:
         got = decode_text(s)
+        if not s.startswith(b"\xfe\xff") and len(got) == len(s):
+            for b, ch in zip(s, got):
+                if b in annex_d and annex_d[b] != ch:
+                    ctx.violation("decode", {"bytes": s.hex(), "byte": b}, annex_d[b], ch, "PDFDocEncoding (ISO 32000-1 Annex D.2): byte decoded to another character")
+                    break
         ctx.case("decode", s, nontrivial=any(b >= 0x80 for b in s), sample={"bytes": s.hex(), "text": got})
         # oracle: well-formed UTF-16 decodes as Python's strict codec; BOM-less strings through Annex D
         if s.startswith(b"\xfe\xff"):
